@@ -285,14 +285,15 @@ def run_property(prop, tier, builders, seed=0, replay_fn=None, known=None, level
             per_class.setdefault(cls, [0, 0])
             per_class[cls][0] += 1
             tinfo["obligations"] += 1
-            if t.unwind is None:
+            unb = t.unwind is None or getattr(t, "complete", False)
+            if unb:
                 obligations += 1
             else:
                 bounded_obl += 1
             if st == "SUCCESS":
                 per_class[cls][1] += 1
                 tinfo["discharged"] += 1
-                if t.unwind is None:
+                if unb:
                     discharged += 1
                 else:
                     bounded_dis += 1
@@ -313,7 +314,7 @@ def run_property(prop, tier, builders, seed=0, replay_fn=None, known=None, level
                 undecided.append("%s: loop contract silently dropped (no loop_invariant_step obligations)" % t.name)
         if tinfo["obligations"] == 0:
             undecided.append("%s: zero obligations generated" % t.name)
-        if t.unwind is not None:
+        if t.unwind is not None and not getattr(t, "complete", False):
             bounded_fns.append("%s bounded(%s)%s" % (t.fn, t.unwind, " " + t.bounded_note if t.bounded_note else ""))
         else:
             functions.append(t.fn)
